@@ -1,5 +1,11 @@
 package dagaz
 
+import "sync"
+
 type State struct {
+	// Mutex serializes the accesses of the session's participants to
+	// SpatialPartition, which is not safe for concurrent use.
+	Mutex sync.Mutex
+
 	SpatialPartition SpatialPartition
 }
